@@ -328,23 +328,24 @@ def judge_runs(runs, tag):
 
 def liveness_recheck(fails, total, notes):
     """a verdict that rests on the harness's no-progress watchdog (the cancel handler did not run, the final state was not reached, the
-    reused descriptor did not fire) is reported only if that configuration shows it again when run alone with ten times the
-    no-progress window"""
+    reused descriptor did not fire) is reported only if that configuration shows it again when run alone with five times the
+    no-progress window (4 rounds of 100 s at most: the re-run itself must end inside run_harness's limit, or a deterministic
+    hang would cost the check its verdict)"""
     keep, seen = [], {}
     for f in fails:
         if f.get("kind") != "oracle" or not f.get("watchdog"):
             keep.append(f)
             continue
         code = f["code"]
-        if code not in seen and len(seen) < 3:
-            r = judge_runs([{"seed": f["seed"], "permille": f["permille"], "rounds": 12, "first": code, "wait_s": 200}], "live")
+        if code not in seen and len(seen) < 2:
+            r = judge_runs([{"seed": f["seed"], "permille": f["permille"], "rounds": 4, "first": code, "wait_s": 100}], "live")
             seen[code] = [x for x in r["fails"] if x.get("watchdog") or x.get("kind") == "crash"]
         if seen.get(code, [True]):
             keep.append(f)
         else:
             total["watchdog_verdicts_not_reproduced_alone"] = total.get("watchdog_verdicts_not_reproduced_alone", 0) + 1
-            notes.append("inconclusive (not reported): '%s' rested on the 20 s no-progress watchdog and did not show again in 12 rounds of "
-                         "that configuration run alone with a 200 s window" % f["what"])
+            notes.append("inconclusive (not reported): '%s' rested on the 20 s no-progress watchdog and did not show again in 4 rounds of "
+                         "that configuration run alone with a 100 s window" % f["what"])
     return keep
 
 
